@@ -127,3 +127,21 @@ def markup_behaviours(workdir, maxlen, maxcmt=2, maxw=20, unit=2, gen=True, work
             j["id"] = "beh:markup:%s" % hashlib.sha256(j["text"].encode()).hexdigest()[:12]
             behs.append(j)
     return r, behs
+
+
+FLOW_CFG = ("SPECIFICATION Spec\nCONSTANTS MaxLen = %d\n MaxOps = %d\n MaxCmt = %d\n MaxW = %d\n Unit = %d\n GenOn = %s\n"
+            "INVARIANTS %s\nCHECK_DEADLOCK FALSE\n")
+FLOW_INVS = "InvConservation InvNoDoubleBlank InvIndentUnit InvHygiene InvBreakSafety InvDelimBalance"
+
+
+def flow_behaviours(workdir, maxlen, maxops=2, maxcmt=2, maxw=30, unit=2, gen=True, workers=8, timeout=1500):
+    cfg = FLOW_CFG % (maxlen, maxops, maxcmt, maxw, unit, "TRUE" if gen else "FALSE", FLOW_INVS + (" Gen" if gen else ""))
+    r = C.model_check("FlowMC", cfg, workdir, workers=workers, xmx="8g", timeout=timeout)
+    behs = []
+    if gen:
+        for g in C.parse_tlc_tuple_lines(r["out"], "GEN"):
+            j = json.loads(C.unquote_tla_string(g))
+            j["text"] = "#" + "".join(ev["txt"] if "txt" in ev else concretise_events([ev]) for ev in j["seq"]) + "\n"
+            j["id"] = "beh:flow:%s" % hashlib.sha256(j["text"].encode()).hexdigest()[:12]
+            behs.append(j)
+    return r, behs
